@@ -105,6 +105,23 @@ let sbspec ops =
   List.iter (fun o -> st := spec_step !st (sb_op o); trace := ("A=" ^ hx (fst !st) ^ ";B=" ^ hx (snd !st)) :: !trace) ops;
   String.concat "|" (List.rev !trace) ^ " frees=clean strings=zeroed"
 
+(* ---- C17: inventory of temporaries (Model_Release) ---- *)
+let rel_of api a =
+  let t () = hash_of (List.nth a 0) in
+  let g i = bx (List.nth a i) in
+  let nat i = nat_of_int (int_of_string (List.nth a i)) in
+  match api with
+  | "hmac" | "hmac_veckey" | "hotp" | "hotp_secure" | "totpvalid" | "tokgen_vec" -> rel_get_hmac true (t ()) (g 1) (if List.length a > 2 && api <> "hotp" && api <> "tokgen_vec" then g 2 else [])
+  | "hmac_securekey" -> rel_get_hmac_securekey true (t ()) (g 1) (g 2)
+  | "tokgen_secure" | "tokval_secure" | "tokgenfp_secure" | "tokvalfp_secure" -> rel_token_securekey true (t ()) (g 1) []
+  | "hmacctx" -> rel_hmac_ctx true (t ()) (g 1) (g 2)
+  | "pbkdf2" | "pbkdf2_secure" | "pbkdf2_sbin" | "pbkdf2buf" -> rel_pbkdf2 true (t ()) (g 1) (g 2) (nd (List.nth a 3)) (nat 4)
+  | "pepper" -> rel_pepper true (t ()) (g 1) (g 2) (g 3) (nd (List.nth a 4)) (nat 5)
+  | "hkdfx" | "hkdfx_secure" | "hkdfkiv" -> rel_hkdf_extract true (g 1) (if List.nth a 2 = "-" then None else Some (g 2))
+  | "hkdfe" | "hkdfe_secure" -> rel_get_hmac true SHA256 (g 1) []
+  | "b64dec_secure" | "b32dec_secure" | "b36dec_secure" -> []      (* the decoded bytes are supplied by the generator *)
+  | _ -> failwith "rel api"
+
 let run toks =
   match toks with
   | ["cteq"; a; b] -> bool_s (ct_equals (bx a) (bx b))
@@ -190,6 +207,17 @@ let run toks =
       "ok " ^ bool_s (List.mem (bx tok) (candidates (hash_of t) (bx k) (if fp = "none" then None else Some (bx fp)) (zd now) (zd i)))
   | ["tostring"; z] -> hx (to_string (zd z))
   | "args" :: rest -> verdict_s (args_run rest)
+  | "needles" :: api :: a ->
+      (* the derived values that must never be found in released memory: contents of every temporary of the inventory (>= 8 bytes, deduplicated) *)
+      let cs = List.filter (fun c -> List.length c >= 8) (List.map (fun r -> r.r_content) (rel_of api a)) in
+      let uniq = List.sort_uniq compare (List.map hx cs) in
+      String.concat " " (if uniq = [] then ["-"] else uniq)
+  | "heap" :: api :: rest ->
+      let a = let rec upto = function [] -> [] | "@" :: _ -> [] | x :: r -> x :: upto r in upto rest in
+      let expect = match List.rev a with e :: _ when String.length e > 2 && String.sub e 0 2 = "E=" -> String.sub e 2 (String.length e - 2) | _ -> "ok" in
+      let a' = List.filter (fun x -> not (String.length x > 2 && String.sub x 0 2 = "E=")) a in
+      let rs = if expect <> "ok" then [] else (try rel_of api a' with _ -> []) in   (* on a rejected call the inventory below the rejection point is not built *)
+      expect ^ " released=" ^ (if all_released_zero rs then "clean" else "dirty")
   | "ssmodel" :: pk :: ops ->
       (* ops: S:<nonce>:<plain> | R:<nonce> | C | I:<nonce>:<plain> | O ; nonces are the ones the implementation drew *)
       let pk = bx pk in
